@@ -143,6 +143,11 @@ func (os *ObjectStream) parseHeader() error {
 	headerData := os.decoded[:os.first]
 	parser := NewParser(bytes.NewReader(headerData))
 
+	// /N comes from the file: every header entry takes at least four bytes
+	// ("1 0 "), so the header cannot hold more entries than that
+	if os.n > len(headerData)/4+1 {
+		return fmt.Errorf("object stream /N (%d) exceeds what its %d-byte header can hold", os.n, len(headerData))
+	}
 	os.offsets = make([]objectStreamOffset, 0, os.n)
 
 	for i := 0; i < os.n; i++ {
